@@ -52,7 +52,7 @@ class Check:
         with open(path, "w") as f:
             for fam, m in shim_map.items():
                 for tgt, so in m.items():
-                    bits = 0 if tgt == "scalar" else build.arch(tgt)["bits"]
+                    bits = build.arch(tgt)["bits"]
                     f.write("%s %s %d %s\n" % (fam, tgt, bits, so))
         self.shims_file = path
         return path
@@ -106,7 +106,7 @@ class Check:
     # ------------------------------------------------------------------ replay
     def replay_tokens(self, rec):
         """argv tokens after --replay-case for an elem-style record"""
-        if rec.get("kind", "elem") == "elem":
+        if rec.get("kind", "elem") in ("elem", "elem_c13"):
             return [rec["op"], rec["type"], rec.get("target", "*"), str(rec.get("imm", [0])[0])] + list(rec["inputs"])
         return ["json", json.dumps(rec)]
 
@@ -189,7 +189,7 @@ class Check:
         for e in self.known:
             if e["status"] != "open":
                 continue
-            w = e.get("witness")
+            w = e.get("witness_by_property", {}).get(self.prop, e.get("witness"))
             if not w:
                 continue
             saved = self.open_classes
